@@ -89,19 +89,30 @@ fn rand_image(r: &mut Rng, i: usize, thorough: bool) -> (Img, &'static str) {
     let max: u64 = if depth == 8 { 255 } else { 65535 };
     let pool: &[u16] = if depth == 8 { &[0, 1, 127, 128, 254, 255] } else { &[0, 1, 255, 256, 0x00ff, 0xff00, 0x0102, 0x0201, 32767, 32768, 65534, 65535] };
     let n = (w * h * chans) as usize;
+    if b == "beyond-u16" {
+        // constant image: its literals are printed as runs ([rep x n] of Base/Pack.v), a plain list of
+        // 65536 numbers overflows coqc's stack
+        return (Img { w, h, chans, depth, samples: vec![7; n] }, b);
+    }
     let samples = (0..n).map(|_| if r.chance(1, 4) { *r.pick(pool) } else { r.below(max + 1) as u16 }).collect();
     (Img { w, h, chans, depth, samples }, b)
 }
 
-fn c_img(im: &Img) -> String {
-    c_tuple(&[im.w.to_string(), im.h.to_string(), im.chans.to_string(), im.depth.to_string(), c_list(im.samples.iter().map(|s| s.to_string()))])
+/// list of numbers; a long constant list as a run
+fn c_nums(v: &[u64]) -> String {
+    if v.len() > 1000 && v.iter().all(|&x| x == v[0]) { format!("(rep {} {})", v[0], v.len()) } else { c_list(v.iter().map(|s| s.to_string())) }
 }
+fn c_img(im: &Img) -> String {
+    c_tuple(&[im.w.to_string(), im.h.to_string(), im.chans.to_string(), im.depth.to_string(), c_nums(&im.samples.iter().map(|&s| s as u64).collect::<Vec<_>>())])
+}
+fn c_bytes_run(b: &[u8]) -> String { c_nums(&b.iter().map(|&x| x as u64).collect::<Vec<_>>()) }
 
 pub fn cases(ctx: &Ctx) -> Vec<Case> {
     let mut r = Rng::new(ctx.seed);
     let scratch = Scratch::new("c35");
     let root = scratch.path().to_path_buf();
-    let t = Duration::from_secs(60);
+    // a run that does not finish in `t1` is repeated once with `t2`; not finishing is never a property failure
+    let (t1, t2) = (Duration::from_secs(120), Duration::from_secs(1200));
     let mut out = vec![];
     for i in 0..ctx.n {
         let (im, sizeb) = rand_image(&mut r, i, ctx.tier == Tier::Thorough);
@@ -112,15 +123,20 @@ pub fn cases(ctx: &Ctx) -> Vec<Case> {
         let base_ts = write_base(&mut r, &base);
         write_png(&im, &png);
         // ---- fromimage
-        let mut c = Command::new(tool("dicom-fromimage"));
-        c.arg(&base).arg(&png).arg("-o").arg(&dcm).env("RUST_LOG", "off");
-        let (rc1, log1) = run_with_timeout(c, t);
+        let mut infra: Option<String> = None;
+        let (rc1, log1, inf1) = run_patiently(|| {
+            let mut c = Command::new(tool("dicom-fromimage"));
+            c.arg(&base).arg(&png).arg("-o").arg(&dcm).env("RUST_LOG", "off");
+            c
+        }, t1, t2);
+        if inf1 { infra = Some("dicom-fromimage did not finish within the time limits".into()); }
         let mut fail: Option<(String, String)> = None;
         let mut c_attrs = String::new();
         let mut unwrapped: Option<Vec<u8>> = None;
         let mut decoded: Option<Img> = None;
         let mut ran_decoded = false;
-        if rc1 != Some(0) {
+        if infra.is_some() {
+        } else if rc1 != Some(0) {
             fail = Some(("fromimage-failed".into(), format!("exit {rc1:?}: {}", log1.chars().take(300).collect::<String>())));
         } else {
             match open_file(&dcm) {
@@ -135,29 +151,35 @@ pub fn cases(ctx: &Ctx) -> Vec<Case> {
                     c_attrs = c_tuple(&[c_str(&pi), n(u(tags::SAMPLES_PER_PIXEL)), c_opt(u(tags::PLANAR_CONFIGURATION).map(|v| v.to_string())),
                         n(u(tags::COLUMNS)), n(u(tags::ROWS)),
                         c_tuple(&[n(u(tags::BITS_ALLOCATED)), n(u(tags::BITS_STORED)), n(u(tags::HIGH_BIT)), n(u(tags::PIXEL_REPRESENTATION))]),
-                        c_bool(ob), c_bytes(&bytes)]);
+                        c_bool(ob), c_bytes_run(&bytes)]);
                     if o.element(tags::NUMBER_OF_FRAMES).is_ok() { fail = Some(("number-of-frames-kept".into(), "Number of Frames of the base file survived".into())); }
                 }
             }
             // ---- toimage --unwrap
-            let mut c = Command::new(tool("dicom-toimage"));
-            c.arg(&dcm).arg("--unwrap").arg("-o").arg(&raw).env("RUST_LOG", "off");
-            let (rc2, log2) = run_with_timeout(c, t);
+            let (rc2, log2, inf2) = run_patiently(|| {
+                let mut c = Command::new(tool("dicom-toimage"));
+                c.arg(&dcm).arg("--unwrap").arg("-o").arg(&raw).env("RUST_LOG", "off");
+                c
+            }, t1, t2);
+            if inf2 { infra = Some("dicom-toimage --unwrap did not finish within the time limits".into()); }
             if rc2 == Some(0) { unwrapped = std::fs::read(&raw).ok(); }
             else if !beyond && fail.is_none() { fail = Some(("toimage-unwrap-failed".into(), format!("exit {rc2:?}: {}", log2.chars().take(300).collect::<String>()))); }
             // ---- toimage (decoded), colour images only: monochrome goes through the LUT pipeline
             if im.chans == 3 {
                 ran_decoded = true;
-                let mut c = Command::new(tool("dicom-toimage"));
-                c.arg(&dcm).arg("-o").arg(&outpng).env("RUST_LOG", "off");
-                let (rc3, log3) = run_with_timeout(c, t);
+                let (rc3, log3, inf3) = run_patiently(|| {
+                    let mut c = Command::new(tool("dicom-toimage"));
+                    c.arg(&dcm).arg("-o").arg(&outpng).env("RUST_LOG", "off");
+                    c
+                }, t1, t2);
+                if inf3 { infra = Some("dicom-toimage did not finish within the time limits".into()); }
                 if rc3 == Some(0) { decoded = read_png(&outpng); }
                 if decoded.is_none() && !beyond && fail.is_none() { fail = Some(("toimage-decode-failed".into(), format!("exit {rc3:?}: {}", log3.chars().take(300).collect::<String>()))); }
             }
         }
         // ---- direct oracle: dimensions and pixel values come back
         let mut oracle = Oracle::Holds;
-        if beyond { oracle = Oracle::NotApplicable; }
+        if beyond || infra.is_some() { oracle = Oracle::NotApplicable; }
         else if let Some((c, d)) = fail { oracle = Oracle::Fails { class: c, detail: d }; }
         else {
             let want: Vec<u8> = if im.depth == 8 { im.samples.iter().map(|&s| s as u8).collect() } else { im.samples.iter().flat_map(|s| s.to_le_bytes()).collect() };
@@ -170,13 +192,16 @@ pub fn cases(ctx: &Ctx) -> Vec<Case> {
                 }
             }
         }
-        let coq = if c_attrs.is_empty() { String::new() } else {
-            c_tuple(&[c_img(&im), c_attrs, c_opt(unwrapped.as_ref().map(|b| c_bytes(b))), c_opt(decoded.as_ref().map(c_img))])
+        // large images are oracle-only: a literal of n numbers costs coqc time and memory, and the model
+        // comparison gains nothing from size (the one deliberate exception is the beyond-u16 case)
+        let model_evaluated = im.samples.len() <= 3000 || beyond;
+        let coq = if c_attrs.is_empty() || infra.is_some() || !model_evaluated { String::new() } else {
+            format!("({} : Image.case_t)", c_tuple(&[c_img(&im), c_attrs, c_opt(unwrapped.as_ref().map(|b| c_bytes_run(b))), c_opt(decoded.as_ref().map(c_img))]))
         };
         let kind = format!("{}{}", if im.chans == 1 { "L" } else { "RGB" }, im.depth);
         out.push(Case {
             coq,
-            desc: json!({"bucket": format!("{kind} {sizeb}"), "w": im.w, "h": im.h, "type": kind, "base_ts": base_ts, "decoded_run": ran_decoded,
+            desc: json!({"bucket": format!("{kind} {sizeb}"), "w": im.w, "h": im.h, "type": kind, "base_ts": base_ts, "decoded_run": ran_decoded, "infrastructure_note": infra,
                           "first_samples": im.samples.iter().take(12).collect::<Vec<_>>()}),
             key: format!("{kind}|{}x{}|{:?}", im.w, im.h, im.samples.iter().take(16).collect::<Vec<_>>()),
             oracle,
